@@ -269,6 +269,17 @@ func runC03(r *Report) {
 						okKey = true
 					}
 				}
+				// the same computation written in place: hmac.New keyed with the decrypted secret, fed
+				// with the challenge
+				for _, hn := range Calls(vr, false, "hmac:New") {
+					if kc, idx := CallOfValue(Arg(hn, 1)); kc != nil && len(decs) == 1 && ssa.CallInstruction(kc) == decs[0] && idx == 0 {
+						for _, w := range Calls(vr, false, "Write") {
+							if strings.Contains(originSummary(bufArg(w)), "param:challenge") {
+								okKey = true
+							}
+						}
+					}
+				}
 			}
 			r.Ob("R-C03-6", ret.Pos(), okEq && okDec && okKey, fmt.Sprintf("VerifyResponse answers through hmac.Equal (%v) after a successful Decrypt of the stored secret (%v), keyed with the decrypted secret over this challenge (%v)", okEq, okDec, okKey), "VerifyResponse", "verdict-is-hmac-equal")
 		}
